@@ -344,9 +344,17 @@ Proof.
   rewrite firstn_firstn. replace (Nat.min w (lb_w b)) with w by lia. reflexivity.
 Qed.
 
+Lemma nth_error_firstn_lt : forall (l : str) n i, (i < n)%nat ->
+  nth_error (firstn n l) i = nth_error l i.
+Proof.
+  induction l as [|h t IH]; intros n i Hi.
+  - rewrite firstn_nil. reflexivity.
+  - destruct n; [lia|]. destruct i; [reflexivity|]. cbn. apply IH. lia.
+Qed.
+
 Lemma lb_index_string : forall b w i, wf b -> (i < lb_w b)%nat ->
   lb_index (lb_set_w b w) i = nth_error (lb_string b) i.
 Proof.
   intros b w i Hwf Hi. rewrite lb_string_under. unfold lb_index, lb_under. cbn.
-  destruct (lb_buf b); symmetry; apply nth_error_firstn; exact Hi.
+  destruct (lb_buf b); symmetry; apply nth_error_firstn_lt; exact Hi.
 Qed.
